@@ -2,9 +2,13 @@
 
 Part "grids":  get_native_grids and get_tiles for every rectangle whose four
                edges lie on a quarter-cell lattice around a border situation.
-Part "elev":   SRTM30.elevation for a cross-shaped subset of those rectangles,
-               with SRTM30.get_tile replaced by synthetic tiles whose pixel
-               value is 43200 * global_row + global_col.
+Part "elev":   SRTM30.elevation for a cross-shaped subset of those rectangles
+               and for whole-degree rectangles given as ints, with
+               SRTM30.get_tile replaced by synthetic tiles whose pixel value
+               is 43200 * global_row + global_col.
+Part "big":    get_native_grids and get_tiles for every rectangle whose edges
+               are tile borders or tile centres (up to the whole data set),
+               each passed as Python float, Python int and numpy scalars.
 Part "tilegrid": get_grids / get_native_grids of the 27 tiles' own bounds.
 Part "cache":  request histories against the tile cache (c20_cache.py).
 
@@ -31,13 +35,22 @@ RULE = ("grids: per (lat situation, lon situation) every rectangle with "
         "covering all four cell phases on both sides of B; one-sided at "
         "90 N, 60 S, 180 W, 180 E), B = interior cell border / tile border / "
         "outer edge; elev: the same lattice restricted to (all lat intervals "
-        "x core lon intervals) + (core lat intervals x all lon intervals); "
-        "tilegrid: the 27 tiles; cache: every request sequence of length "
-        "<= 3 over 3 rectangles touching 1, 2, 4 tiles from every (quick: 4) "
-        "subset of the 4 tiles being present initially. Cases are distinct "
+        "x core lon intervals) + (core lat intervals x all lon intervals) "
+        "passed as floats, plus the whole-degree rectangles B-1..B+1 (one-"
+        "sided at the outer edges; thorough also B-1..B and B..B+1 on both "
+        "axes) passed as Python ints; big: every rectangle with lat edges in "
+        "{-60, -35, ..., 90} and lon edges in {-180, -160, ..., 180} (tile "
+        "borders and tile centres, 1 to 27 tiles) x argument form {float, "
+        "int, numpy int64, float64, float32}, get_tiles and get_native_grids "
+        "only; tilegrid: the 27 tiles; cache: every request sequence of "
+        "length <= 3 over 3 rectangles touching 1, 2, 4 tiles, every request "
+        "from another working directory, in 3 environments: TYPHON_DATA_PATH "
+        "set (from every (quick: 4) subset of the 4 tiles being present "
+        "initially), only XDG_CACHE_HOME set, neither set (both from an empty "
+        "cache; warm states arise within the history). Cases are distinct "
         "by construction. Non-trivial = some edge is not on a cell border or "
         "the rectangle touches or crosses a tile border / outer edge (grids, "
-        "elev); every tile (tilegrid); a needed tile is already present "
+        "elev, big); every tile (tilegrid); a needed tile is already present "
         "before the request (cache).")
 ASSUMPTIONS = [
     "rectangles have positive extent in both directions (>= 1/4 cell), "
@@ -49,14 +62,23 @@ ASSUMPTIONS = [
     "15.0, 0.0) are decided strictly; all other lattice edges are >= 0.2 "
     "cell away from any border (asserted)",
     "returned coordinates are accepted as cell centres within 1e-6 cell",
-    "only edges within 9/4 cells of the listed borders are enumerated; an "
-    "index error that needs a rectangle larger than 4.5 cells is not seen",
+    "unaligned edges are enumerated within 9/4 cells of the listed borders "
+    "only; larger rectangles have whole-degree edges (elev: 1 or 2 degrees; "
+    "big: multiples of 25 / 20 degrees, without elevation()), so an index "
+    "error that needs a large unaligned rectangle is not seen",
+    "numpy scalars and ints are passed for whole-degree edges only (exactly "
+    "representable in every form); elevation() gets floats and ints",
     "the synthetic tiles are int32 instead of big-endian int16; decoding of "
     "the .DEM bytes is not part of the statement",
     "cache part: a history starts in a fresh process state (module global "
-    "_data_path reset, TYPHON_DATA_PATH pointing to a fresh tmpfs "
-    "directory); the downloader is replaced by one that creates a sparse "
-    ".DEM file of the real size",
+    "_data_path reset; HOME and the one variable of the environment point "
+    "into a fresh tmpfs directory, the other two are unset; no [environment] "
+    "section in typhon's config file); the downloader is replaced by one "
+    "that creates a sparse .DEM file of the real size in "
+    "typhon.topography._get_data_path(), where the real one extracts it; "
+    "'the cache directory' is modelled as the set of .DEM files below the "
+    "scratch root, which must stay in one directory; tiles present "
+    "initially are placed in $TYPHON_DATA_PATH/topography only",
 ]
 
 # name -> (B, k_lo, k_hi)
@@ -76,6 +98,18 @@ CORE = {"quick": {(-9, 9): [(-3, 2), (-4, 0)],
                      (-9, 0): [(-5, -2), (-4, 0)],
                      (0, 9): [(0, 1), (2, 7)]}}
 CHUNK = {"quick": 60, "thorough": 300}     # elevation cases per shard
+# whole-degree intervals around B (k = 480 is one degree) for the elevation
+# requests with integer arguments, by k-range of the situation
+DEGREE = {"quick": {(-9, 9): [(-480, 480)],
+                    (-9, 0): [(-480, 0)],
+                    (0, 9): [(0, 480)]},
+          "thorough": {(-9, 9): [(-480, 0), (0, 480), (-480, 480)],
+                       (-9, 0): [(-480, 0)],
+                       (0, 9): [(0, 480)]}}
+BIG_LATS = (-60, -35, -10, 15, 40, 65, 90)
+BIG_LONS = tuple(range(-180, 181, 20))
+# how the four numbers of a rectangle are passed (Python or numpy scalars)
+FORMS = ("float", "int", "int64", "float64", "float32")
 
 
 # --------------------------------------------------------------------------
@@ -134,17 +168,22 @@ def core_intervals(sit, tier):
 
 
 def elevation_cases(lat_sit, lon_sit, tier):
+    """-> [(klat, klon, form)]: the cross of lattice rectangles as floats,
+    then the whole-degree rectangles as ints."""
     la, lo = LAT_SITS[lat_sit], LON_SITS[lon_sit]
     cases = set(itertools.product(intervals(la, tier),
                                   core_intervals(lo, tier)))
     cases |= set(itertools.product(core_intervals(la, tier),
                                    intervals(lo, tier)))
-    return sorted(cases)
+    degrees = itertools.product(DEGREE[tier][la[1:]], DEGREE[tier][lo[1:]])
+    return [c + ("float",) for c in sorted(cases)] + \
+        [c + ("int",) for c in degrees]
 
 
 def shards(tier, seed):
     from checks import c20_cache
     out = [("tilegrid",)]
+    out.extend(("big", lats) for lats in itertools.combinations(BIG_LATS, 2))
     for lat_sit, lon_sit in itertools.product(LAT_SITS, LON_SITS):
         out.append(("grids", tier, lat_sit, lon_sit))
         n = len(elevation_cases(lat_sit, lon_sit, tier))
@@ -159,45 +198,65 @@ def rectangle(lat_sit, lon_sit, klat, klon):
             coord(bla, klat[1]), coord(blo, klon[1]))
 
 
-def nontrivial(rect, klat, klon):
-    if any(k % SUB for k in klat + klon):
+def as_form(rect, form):
+    """The rectangle as typhon receives it."""
+    import numpy as np
+    convert = {"float": float, "int": int}.get(form) or getattr(np, form)
+    out = tuple(convert(v) for v in rect)
+    assert all(a == b for a, b in zip(out, rect)), "form changes a value"
+    return out
+
+
+def nontrivial(rect, ks=()):
+    if any(k % SUB for k in ks):
         return True
     tiles = tiles_intersecting(*rect)
     return len(tiles) > 1 or any(a == b for a, b in zip(rect, TILES[tiles[0]]))
 
 
-def native_grid_violations(rect):
+def native_grid_violations(rect, form):
     from typhon.topography import SRTM30
     try:
-        lats, lons = SRTM30.get_native_grids(*rect)
+        lats, lons = SRTM30.get_native_grids(*as_form(rect, form))
     except Exception as e:
         return [("exception/get_native_grids/" + type(e).__name__, None,
                  repr(e), "")]
     return check_grids(rect, lats, lons)[0]
 
 
-def run_grids_case(rect):
+def run_grids_case(rect, form="float"):
     """get_native_grids + get_tiles of one rectangle -> list of violations."""
     from typhon.topography import SRTM30
-    bad = native_grid_violations(rect)
+    bad = native_grid_violations(rect, form)
     try:
-        names = SRTM30.get_tiles(*rect)
+        names = SRTM30.get_tiles(*as_form(rect, form))
     except Exception as e:
         return bad + [("exception/get_tiles/" + type(e).__name__, None,
                        repr(e), "")]
     return bad + check_tiles(rect, names)
 
 
-def run_elev_case(rect):
+def run_big_case(rect, form):
+    """A failure that the same rectangle does not show when it is passed as
+    Python floats is filed under the argument type."""
+    bad = run_grids_case(rect, form)
+    if bad and form != "float" and not run_grids_case(rect):
+        return [("big/wrong-only-for-%s-arguments" % form,) + bad[0][1:3]
+                + ("; ".join(b[0] for b in bad),)]
+    return bad
+
+
+def run_elev_case(rect, form="float"):
     from typhon.topography import SRTM30
     with synthetic_tiles():
         try:
-            lats, lons, elev = SRTM30.elevation(*rect)
+            lats, lons, elev = SRTM30.elevation(*as_form(rect, form))
         except Exception as e:
             # a crash that follows from a wrong native grid is filed under
             # the key of the grid defect
             return [(key, exp, obs, "elevation raised %r" % e)
-                    for key, exp, obs, _ in native_grid_violations(rect)] \
+                    for key, exp, obs, _ in
+                    native_grid_violations(rect, form)] \
                 or [("exception/elevation/" + type(e).__name__, None,
                      repr(e), "")]
     bad, rows, cols = check_grids(rect, lats, lons)
@@ -236,10 +295,10 @@ def run_tilegrid_case(name):
 RUNNERS = {"grids": run_grids_case, "elev": run_elev_case}
 
 
-def run_checked(res, runner, arg, case):
-    bad = runner(arg)
+def run_checked(res, runner, args, case):
+    bad = runner(*args)
     if bad:
-        again = runner(arg)
+        again = runner(*args)
         if [b[0] for b in again] != [b[0] for b in bad]:
             res.error("NONDETERMINISM in %r" % (case,))
         for key, exp, obs, msg in bad:
@@ -255,27 +314,42 @@ def run_shard(shard):
     if part == "tilegrid":
         for name in sorted(TILES):
             res.case(nontrivial=True)
-            run_checked(res, run_tilegrid_case, name,
+            run_checked(res, run_tilegrid_case, (name,),
                         dict(part=part, tile=name))
         res.sample(dict(part=part, tiles=len(TILES)))
         return res
+    case = None
+    if part == "big":
+        lats = shard[1]
+        for lons, form in itertools.product(
+                itertools.combinations(BIG_LONS, 2), FORMS):
+            rect = (lats[0], lons[0], lats[1], lons[1])
+            case = dict(part=part, rect=rect, form=form)
+            res.case(nontrivial=nontrivial(rect))
+            res.count("big_cases")
+            res.maximum("tiles_of_one_rectangle",
+                        len(tiles_intersecting(*rect)))
+            run_checked(res, run_big_case, (rect, form), case)
+        res.sample(case)
+        return res
     _, tier, lat_sit, lon_sit = shard[:4]
     if part == "grids":
-        todo = itertools.product(intervals(LAT_SITS[lat_sit], tier),
-                                 intervals(LON_SITS[lon_sit], tier))
+        todo = [k + ("float",) for k in itertools.product(
+            intervals(LAT_SITS[lat_sit], tier),
+            intervals(LON_SITS[lon_sit], tier))]
     else:
         todo = elevation_cases(lat_sit, lon_sit, tier)[
             shard[4]:shard[4] + CHUNK[tier]]
-    case = None
-    for klat, klon in todo:
+    for klat, klon, form in todo:
         rect = rectangle(lat_sit, lon_sit, klat, klon)
         case = dict(part=part, lat_sit=lat_sit, lon_sit=lon_sit, klat=klat,
-                    klon=klon, rect=rect)
-        res.case(nontrivial=nontrivial(rect, klat, klon))
+                    klon=klon, rect=rect, form=form)
+        res.case(nontrivial=nontrivial(rect, klat + klon))
         res.count(part + "_cases")
         if part == "elev":
             res.count("elev_tiles_touched", len(tiles_intersecting(*rect)))
-        run_checked(res, RUNNERS[part], rect, case)
+            res.count("elev_int_argument_cases", int(form == "int"))
+        run_checked(res, RUNNERS[part], (rect, form), case)
     res.sample(case)
     return res
 
@@ -287,11 +361,13 @@ def replay(case):
         return c20_cache.replay(case)
     if part == "tilegrid":
         bad = run_tilegrid_case(case["tile"])
+    elif part == "big":
+        bad = run_big_case(tuple(case["rect"]), case["form"])
     else:
         rect = rectangle(case["lat_sit"], case["lon_sit"],
                          tuple(case["klat"]), tuple(case["klon"]))
         assert list(rect) == list(case["rect"])
-        bad = RUNNERS[part](rect)
+        bad = RUNNERS[part](rect, case["form"])
     if not bad:
         return dict(ok=True)
     return dict(ok=False, violations=[
